@@ -9,5 +9,5 @@ PROP = dict(
         level_text="Property-based differential test: the plan exactly as analysed is the reference for the optimized plan of the same compiler.Job; programs and inputs are sampled by rapid from a typed grammar and from the repo's own program corpus.",
         level_note="Trusted: the unoptimized execution path (kernel builder on the analysed DAG), the harness's order/determinism metadata (conservative: order is only claimed where the operators define one). Not covered here: Parallelize/Vectorize, lake scans.",
         technique="property-based testing (rapid), differential oracle with sequence/multiset comparison chosen by program metadata, flowgraph deadlock detection by goroutine-state inspection",
-        tests=[dict(name="TestOptimizerPreservesMeaning", quick=(8, 300), thorough=(16, 4000))],
+        tests=[dict(name="TestOptimizerPreservesMeaning", quick=(8, 300), thorough=(16, 1500))],
 )
